@@ -165,6 +165,24 @@ def run(ctx):
     ctx.need(len(aps) >= 2, 'unrecognised construct: authenticate signature')
     acert = aps[0]
     asite = '%s:%s KmipSession.authenticate' % (SESSION, af.lineno)
+    # path-sensitive: which returns can be reached on a path that built a plugin connector (auth.<X>Connector(...)) - whatever the spelling
+    # of the bookkeeping (a flag set to True, a list of the plugins tried, early raise ...); constants, flags, appended-to lists and
+    # repeated tests of one local are followed along each path, everything else is left open
+    from ..pathsim import Sim
+
+    def mark_plugin(sim, node, env):
+        for c in calls_at(node):
+            cn_ = call_name(c) or ''
+            if cn_.startswith('auth.') and cn_.endswith('Connector'):
+                env['#plugin'] = ('c', True)
+    sim = Sim(ag, hook=mark_plugin)
+    ret_nodes = [pn for pn, lab in ag.exit.pred]
+    n_plugin_sites = sum(1 for n in ag.nodes for c in calls_at(n) if (call_name(c) or '').startswith('auth.') and (call_name(c) or '').endswith('Connector'))
+    ctx.count('plugin_construction_sites', n_plugin_sites, 1)
+    cn_returns_after_plugin = set()
+    for stop, lab, env in sim.run([ag.entry], ret_nodes):
+        if env.get('#plugin') == ('c', True):
+            cn_returns_after_plugin.add(stop.id)
     n_ret = 0
     for pn, lab in ag.exit.pred:
         n_ret += 1
@@ -214,31 +232,13 @@ def run(ctx):
                 if d is not None and len(d.args) == 1 and isinstance(d.args[0], ast.Name) and d.args[0].id == acert:
                     defnode = ard.reaching(en, elts[0].id)[0][2]
                     no_exc = not any(l == 'exc' and pn.id in ag.reachable(m, [defnode]) for m, l in defnode.succ)
-                    # under `not plugin_enabled`
-                    flag_ok = False
-                    for t, lab2 in dominating_edges(ag, pn):
-                        if isinstance(t.stmt, ast.Name) and lab2 == 'F':
-                            fv = ard.values(t, t.stmt.id)
-                            consts = [x.value for x in fv if isinstance(x, ast.Constant)]
-                            if len(consts) == len(fv) and False in consts:
-                                # the flag is set True exactly where a plugin is used
-                                flag_ok = True
-                                flagvar = t.stmt.id
+                    # only when no plugin was consulted: no path from the entry that builds an authentication plugin reaches this return
+                    flag_ok = pn.id not in cn_returns_after_plugin
                     ok = no_exc and flag_ok and ag.dominates(defnode, pn)
                     why = 'certificate CN under not-plugin-enabled'
         ctx.check(ok, 'C17.R3', 'KmipSession.authenticate|return %s' % short(v, 50), rsite,
                   'return of %s' % why, 'authenticate returns an identity that is neither a plugin verdict nor the certificate CN with no plugin enabled: %s' % short(s))
     ctx.count('authenticate_returns', n_ret, 2)
-    # the plugin_enabled flag must be set on every path that constructs a plugin (so the CN fallback is disabled)
-    for n in ag.nodes:
-        for c in calls_at(n):
-            if (call_name(c) or '') == 'auth.SLUGSConnector':
-                sets = [m for m in ag.nodes if m.kind == 'stmt' and isinstance(m.stmt, ast.Assign) and isinstance(m.stmt.value, ast.Constant)
-                        and m.stmt.value.value is True and ag.dominates(m, n)]
-                ctx.check(bool(sets), 'C17.R3', 'KmipSession.authenticate|plugin-sets-enabled-flag', '%s:%s KmipSession.authenticate' % (SESSION, c.lineno),
-                          'an enabled plugin always sets the flag that disables the certificate-only fallback',
-                          'a plugin is consulted without disabling the certificate-only fallback')
-
     # -- R4 identity extraction
     ut = src.tree(AUTH_UTILS)
     cif = get_function(ut, 'get_client_identity_from_certificate')
